@@ -54,7 +54,11 @@ impl Oracle for CcOracle {
             }
             let tap = w.tap.lock().unwrap();
             let mut ack_eliciting = false;
-            let mut exempt = b.loss_probes.iter().any(|x| *x > 0);
+            let probe_pending = b.loss_probes.iter().any(|x| *x > 0);
+            let mut exempt = false;
+            // frames that make a packet count as data for the window rule (a PATH_CHALLENGE riding
+            // on a data packet does not turn it into a path-validation packet)
+            let mut data_eliciting = false;
             // is every ack-eliciting packet of this transmit coalesced behind a non-eliciting
             // packet of a lower packet number space in the same datagram?
             let mut first_in_dgram_eliciting: Option<bool> = None;
@@ -81,8 +85,11 @@ impl Oracle for CcOracle {
                 if fr.iter().any(|f| f.ack_eliciting()) {
                     ack_eliciting = true;
                 }
-                if fr.iter().any(|f| matches!(f, Frame::PathChallenge(_) | Frame::PathResponse(_) | Frame::ConnectionClose { .. } | Frame::ApplicationClose { .. })) {
+                if fr.iter().any(|f| matches!(f, Frame::ConnectionClose { .. } | Frame::ApplicationClose { .. })) {
                     exempt = true;
+                }
+                if fr.iter().any(|f| f.ack_eliciting() && !matches!(f, Frame::PathChallenge(_) | Frame::PathResponse(_))) {
+                    data_eliciting = true;
                 }
                 if p.space == Space::OneRtt && is_mtu_probe(&fr) && tx.size > tx.mtu_before as usize {
                     exempt = true;
@@ -92,8 +99,24 @@ impl Oracle for CcOracle {
             if !ack_eliciting {
                 continue;
             }
+            if !data_eliciting {
+                // nothing but path validation frames
+                exempt = true;
+            }
             if exempt {
                 self.exempt_sends += 1;
+                continue;
+            }
+            if probe_pending {
+                // "at most two probe packets per probe timeout": a transmit that is only allowed
+                // because a loss probe is pending must use that probe up
+                self.exempt_sends += 1;
+                let used = b.loss_probes.iter().sum::<u32>() > a.loss_probes.iter().sum::<u32>();
+                if !used && a.in_flight_bytes >= b.window && a.in_flight_bytes > b.in_flight_bytes {
+                    let kind = if only_coalesced_eliciting { "coalesced-packet-bypasses-congestion-window" } else { "loss-probe-exemption-not-consumed" };
+                    problem = Some((kind.to_string(), format!("inc{}: a poll_transmit of {} bytes raised bytes in flight from {} to {} past the window of {} under the loss-probe exemption, but the pending probes stayed at {:?}", tx.inc, tx.size, b.in_flight_bytes, a.in_flight_bytes, b.window, a.loss_probes)));
+                    break;
+                }
                 continue;
             }
             self.gated_sends_checked += 1;
@@ -120,7 +143,9 @@ fn run(ch: Chooser, ctx: &RunCtx, mut opts: BasicOpts, clean_path: bool) -> RunO
         opts.op_kinds = vec![0, 1, 2, 3, 4];
         opts.retry = 300;
     } else {
-        opts.op_kinds = vec![0, 1, 2, 3, 4, 5, 7];
+        if opts.op_kinds == vec![0, 1, 2, 3, 4] {
+            opts.op_kinds = vec![0, 1, 2, 3, 4, 5, 7];
+        }
     }
     let mut sc = Basic::build(&mut w, opts);
     sc.oracles.push(Box::new(CcOracle::default()));
@@ -156,6 +181,10 @@ fn run(ch: Chooser, ctx: &RunCtx, mut opts: BasicOpts, clean_path: bool) -> RunO
 
 fn fam_faults(ch: Chooser, ctx: &RunCtx) -> RunOut {
     run(ch, ctx, BasicOpts { size_max: 150_000, streams_max: 4, harness_cc_rate: 300, pad_rate: 100, ..Default::default() }, false)
+}
+/// path validation under loss: probe timeouts fire while the PATH_CHALLENGE is outstanding
+fn fam_migration(ch: Chooser, ctx: &RunCtx) -> RunOut {
+    run(ch, ctx, BasicOpts { size_max: 200_000, streams_max: 4, harness_cc_rate: 500, max_drop: 400, op_kinds: vec![7, 7, 6, 1], ops_max: 5, retry: 0, cid_len_choices: vec![8, 8, 4, 20], ..Default::default() }, false)
 }
 fn fam_clean(ch: Chooser, ctx: &RunCtx) -> RunOut {
     run(ch, ctx, BasicOpts { size_max: 300_000, streams_max: 4, harness_cc_rate: 200, pad_rate: 100, ..Default::default() }, true)
@@ -279,7 +308,8 @@ pub fn spec() -> PropSpec {
     PropSpec {
         id: "C12",
         families: vec![
-            Family { name: "faults", f: fam_faults, weight: 30 },
+            Family { name: "faults", f: fam_faults, weight: 20 },
+            Family { name: "migration-loss", f: fam_migration, weight: 10 },
             Family { name: "clean-path", f: fam_clean, weight: 20 },
             Family { name: "handshake-abandon", f: fam_bigcert, weight: 15 },
             Family { name: "zero-rtt", f: fam_zero_rtt, weight: 15 },
@@ -289,7 +319,7 @@ pub fn spec() -> PropSpec {
         thorough_worlds: 600_000,
         panic_is_violation: true,
         rule: "worlds: bulk/mixed workloads with the three built-in controllers and a harness controller dictating window() (fixed small/large, oscillating between acknowledgement batches), under loss/reorder/dup/ECN-CE/MTU changes/rebinding, Retry, directed handshake loss; or loss-free constant-delay paths; or seeded call histories on the controllers alone. non-trivial = a fault fired, >1 connection, or a controller history; distinct = distinct abstract-event signature / call history",
-        assumptions: vec!["bytes in flight and the tracked-packet sum are read through the read-only probe after every simulation step", "window rule: for a poll_transmit that emitted ack-eliciting, non-exempt packets (no loss probe pending before the call, no MTU probe, no PATH_CHALLENGE/RESPONSE, no close) bytes in flight afterwards are below the window read before the call"],
+        assumptions: vec!["bytes in flight and the tracked-packet sum are read through the read-only probe after every simulation step", "window rule: for a poll_transmit that emitted ack-eliciting, non-exempt packets (no loss probe pending before the call, no MTU probe, not consisting of PATH_CHALLENGE/RESPONSE only, no close); a transmit exempted by a pending loss probe must consume one bytes in flight afterwards are below the window read before the call"],
         real: super::REAL.to_vec(),
         stub: super::STUB.to_vec(),
     }
